@@ -98,7 +98,7 @@ def run(prog, ctx):
     # fixed-size buffers never outgrown): decided by the structural rules of the packs below; a violation there means an
     # internal `expect`/assert can fire on valid use
     import importlib
-    INVARIANT_RULES = {"C02": ("C02.Q", "C02.Q2", "C02.A4", "C02.R", "C02.V", "C02.G"), "C03": ("C03.L", "C03.K", "C03.G"), "C04": ("C04.K", "C04.G", "C04.R"),
+    INVARIANT_RULES = {"C02": ("C02.Q", "C02.Q2", "C02.A4", "C02.R", "C02.V", "C02.G"), "C03": ("C03.L", "C03.K", "C03.G"), "C04": ("C04.K", "C04.G", "C04.R", "C04.T"),
                        "C05": ("C05.D", "C05.N", "C05.M"), "C06": ("C06.L", "C06.K", "C06.O", "C06.T"), "C07": ("C07.P", "C07.D"),
                        "C18": ("C18.G", "C18.K"), "C16": ("C16.B",)}
     nI = 0
